@@ -1,1 +1,232 @@
-/-! Property theorems for C01 (only property-level statements and non-vacuity examples live here). -/
+import SpoxModel.Lemmas.Prog
+import SpoxModel.Lemmas.ProgRename
+/-!
+# C01 — a built model computes exactly the dataflow the program describes
+
+Property-level theorems about the shared program model (`Model/Prog.lean`).
+
+* `valid_sound` — **translation validation**: for *any* operator semantics `S`, any well-formed
+  program, any emission accepted by the decidable `validG`, any actual inputs (and any outer
+  binding), running the emission the ONNX way (`evalG`) succeeds and yields, for each requested
+  output, the direct denotation of the program's dataflow.  The harness runs `validG` on the nested
+  emission extracted from the *real* `ModelProto` of every generated program, so the theorem applies
+  to what `spox.build` actually returned.  (That the build algorithm always produces an accepted
+  emission — `build_valid` — is C04's algorithm model plus this per-run validation.)
+* `written_differently_same_values`, `creation_order_irrelevant`, `later_nodes_irrelevant`,
+  `emission_irrelevant`, `outer_binding_irrelevant` — nothing about how the program was written
+  (creation order, what else was constructed, which valid emission the builder chose) changes the
+  computed values: `denote` only reads the dataflow.
+* non-vacuity: the nested-If program of `tests/test_subgraphs.py` and a 3-level If/Loop/If program
+  with a value used only in the innermost body, with concrete integer semantics.
+-/
+namespace C01
+open Prog
+variable {Val : Type} [Inhabited Val]
+
+/-- Translation validation (full strength). -/
+theorem valid_sound (S : Sem Val) (prog : List PNode) (hwf : WF prog) (e : EGraph) (main : PGraph)
+    (hv : validG prog e main [] = true) (b : Nat → Val) (vals : List Val) :
+    evalG S prog e (fun _ => none) vals = some (denoteG S prog b main vals) := by
+  unfold denoteG denote
+  apply graphOK S prog hwf e main (fun _ => none) [] b hv
+  · intro id hid; cases hid
+  · exact Agree.refl _ _ _
+
+/-- The same with both hypotheses executable (this is the form the driver evaluates). -/
+theorem valid_sound_checked (S : Sem Val) (p : Program) (e : EGraph)
+    (hwf : wfCheck p.nodes = true) (hv : validG p.nodes e p.main [] = true)
+    (b : Nat → Val) (vals : List Val) :
+    evalG S p.nodes e (fun _ => none) vals = some (denoteG S p.nodes b p.main vals) :=
+  valid_sound S p.nodes (wfCheck_sound _ hwf) e p.main hv b vals
+
+/-- Bodies: an accepted emission of a body, run where its owner sits (any environment that holds the
+    denotations of the visible ids), is the body's direct denotation as a function of its actual
+    arguments — closures over outer values included. -/
+theorem valid_sound_nested (S : Sem Val) (prog : List PNode) (hwf : WF prog) (g : EGraph)
+    (pg : PGraph) (env : Env Val) (vis : List Nat) (b : Nat → Val)
+    (hv : validG prog g pg vis = true) (henv : EnvOK S prog env vis b) (vals : List Val) :
+    evalG S prog g env vals = some (denoteG S prog b pg vals) := by
+  unfold denoteG denote
+  exact graphOK S prog hwf g pg env vis b hv henv b (Agree.refl _ _ _) vals
+
+/-- Which accepted emission the builder chose (order inside a scope, scope placement, how often a
+    node is emitted) does not matter. -/
+theorem emission_irrelevant (S : Sem Val) (prog : List PNode) (hwf : WF prog) (e₁ e₂ : EGraph)
+    (main : PGraph) (h₁ : validG prog e₁ main [] = true) (h₂ : validG prog e₂ main [] = true)
+    (vals : List Val) :
+    evalG S prog e₁ (fun _ => none) vals = evalG S prog e₂ (fun _ => none) vals := by
+  rw [valid_sound S prog hwf e₁ main h₁ (fun _ => default) vals,
+      valid_sound S prog hwf e₂ main h₂ (fun _ => default) vals]
+
+/-- The outputs of an accepted main emission depend on the actual inputs only (not on whatever the
+    other arguments of the program are bound to). -/
+theorem outer_binding_irrelevant (S : Sem Val) (prog : List PNode) (hwf : WF prog) (e : EGraph)
+    (main : PGraph) (hv : validG prog e main [] = true) (b₁ b₂ : Nat → Val) (vals : List Val) :
+    denoteG S prog b₁ main vals = denoteG S prog b₂ main vals := by
+  have h1 := valid_sound S prog hwf e main hv b₁ vals
+  have h2 := valid_sound S prog hwf e main hv b₂ vals
+  rw [h1] at h2
+  exact Option.some.inj h2
+
+/-- What is constructed later (and not requested) changes no older value. -/
+theorem later_nodes_irrelevant (S : Sem Val) (extra p : List PNode) (b : Nat → Val) (r : VarRef)
+    (hr : r.node < p.length) : denote S (extra ++ p) b r = denote S p b r := by
+  unfold denote getVar
+  rw [table_append S extra p b r.node hr]
+
+/-- Creation order / interleaved constructions: if the dataflow-closed part `D` of `p` occurs in
+    `p'` under an injective renaming `σ` of node ids, all values of `D` agree. -/
+theorem creation_order_irrelevant (S : Sem Val) (p p' : List PNode) (hwf : WF p) (hwf' : WF p')
+    (σ : Nat → Nat) (hσ : ∀ x y, σ x = σ y → x = y) (D : Nat → Prop)
+    (hD : ∀ k, D k → ∃ n, nodeAt p k = some n ∧ nodeAt p' (σ k) = some (mapNode σ n) ∧
+      (∀ r, some r ∈ n.inputs → D r.node) ∧ (∀ g ∈ n.subs, ∀ r ∈ g.results, D r.node))
+    (b b' : Nat → Val) (hb : ∀ a, b' (σ a) = b a) (r : VarRef) (hr : D r.node) :
+    denote S p' b' (mapRef σ r) = denote S p b r := by
+  unfold denote getVar mapRef
+  simp only
+  rw [denote_embed S p p' hwf hwf' σ hσ D hD r.node hr b b' hb]
+
+/-- **Nothing about how the program was written changes the computed values.**  Two programs that
+    contain the same dataflow for the requested outputs (under a renaming of ids: other creation
+    order, other values constructed in between or besides), each built into *some* accepted
+    emission, compute the same outputs on the same inputs. -/
+theorem written_differently_same_values (S : Sem Val) (p p' : List PNode) (hwf : WF p)
+    (hwf' : WF p') (σ : Nat → Nat) (hσ : ∀ x y, σ x = σ y → x = y) (D : Nat → Prop)
+    (hD : ∀ k, D k → ∃ n, nodeAt p k = some n ∧ nodeAt p' (σ k) = some (mapNode σ n) ∧
+      (∀ r, some r ∈ n.inputs → D r.node) ∧ (∀ g ∈ n.subs, ∀ r ∈ g.results, D r.node))
+    (main : PGraph) (hmain : ∀ r ∈ main.results, D r.node)
+    (e e' : EGraph) (hv : validG p e main [] = true)
+    (hv' : validG p' e' (mapGraph σ main) [] = true) (vals : List Val) :
+    evalG S p e (fun _ => none) vals = evalG S p' e' (fun _ => none) vals := by
+  rw [valid_sound S p hwf e main hv (fun _ => default) vals,
+      valid_sound S p' hwf' e' (mapGraph σ main) hv' (fun _ => default) vals]
+  congr 1
+  unfold denoteG
+  simp only [mapGraph, List.map_map]
+  apply List.map_congr_left
+  intro r hr
+  simp only [Function.comp]
+  exact (creation_order_irrelevant S p p' hwf hwf' σ hσ D hD _ _
+    (updArgs_map σ hσ (fun _ => default) (fun _ => default) (fun _ => rfl) main.args vals)
+    r (hmain r hr)).symm
+
+/-! ## Non-vacuity: concrete programs, concrete semantics -/
+
+/-- Integer semantics for the examples: 0 Add, 1 Mul, 2 If (subs = [then, else]),
+    3 Loop (inputs M, cond, state…; body (iter, cond, state…) ↦ (cond, state…)). -/
+def loopN (body : List Int → List Int) : Nat → Nat → List Int → List Int
+  | 0, _, st => st
+  | n + 1, i, st =>
+    let r := body (Int.ofNat i :: 1 :: st)
+    if r.headD 0 = 0 then r.tail else loopN body n (i + 1) r.tail
+
+def exSem : Sem Int where
+  op l ins subs :=
+    let v (i : Nat) : Int := (ins.getD i none).getD 0
+    match l with
+    | 0 => [v 0 + v 1]
+    | 1 => [v 0 * v 1]
+    | 2 => if v 0 ≠ 0 then (subs.getD 0 (fun _ => [])) [] else (subs.getD 1 (fun _ => [])) []
+    | 3 => loopN (subs.getD 0 (fun _ => [])) (v 0).toNat 0 ((ins.drop 2).map (·.getD 0))
+    | _ => []
+
+/-- `tests/test_subgraphs.py::test_outer_scope_arguments_nested_used_in_both`:
+    `r = If(b, then: If(c, then: x + y, else: y), else: y) + x`.  Newest first. -/
+def nestedIf : Program where
+  nodes := [
+    ⟨.op 0, [some ⟨6, 0⟩, some ⟨2, 0⟩], []⟩,                                -- 7: r + x
+    ⟨.op 2, [some ⟨0, 0⟩], [⟨[], [⟨5, 0⟩]⟩, ⟨[], [⟨3, 0⟩]⟩]⟩,              -- 6: If b
+    ⟨.op 2, [some ⟨1, 0⟩], [⟨[], [⟨4, 0⟩]⟩, ⟨[], [⟨3, 0⟩]⟩]⟩,              -- 5: If c
+    ⟨.op 0, [some ⟨2, 0⟩, some ⟨3, 0⟩], []⟩,                                -- 4: x + y
+    ⟨.arg, [], []⟩, ⟨.arg, [], []⟩, ⟨.arg, [], []⟩, ⟨.arg, [], []⟩]         -- 3 y, 2 x, 1 c, 0 b
+  main := ⟨[0, 1, 2, 3], [⟨7, 0⟩]⟩
+
+/-- What the real builder emits for it: `x + y` lands in the innermost `then`. -/
+def nestedIfEmission : EGraph :=
+  .mk [0, 1, 2, 3]
+    [.mk 6 [.mk [] [.mk 5 [.mk [] [.mk 4 []] [⟨4, 0⟩], .mk [] [] [⟨3, 0⟩]]] [⟨5, 0⟩],
+            .mk [] [] [⟨3, 0⟩]],
+     .mk 7 []]
+    [⟨7, 0⟩]
+
+example : wfCheck nestedIf.nodes = true := by decide
+example : validG nestedIf.nodes nestedIfEmission nestedIf.main [] = true := by decide
+example : evalG exSem nestedIf.nodes nestedIfEmission (fun _ => none) [1, 1, 10, 5] = some [25] := by
+  decide
+example : denoteG exSem nestedIf.nodes (fun _ => 0) nestedIf.main [1, 1, 10, 5] = [25] := by decide
+example : denoteG exSem nestedIf.nodes (fun _ => 0) nestedIf.main [1, 0, 10, 5] = [15] := by decide
+/-- the theorem instantiated on it -/
+example (vals : List Int) :
+    evalG exSem nestedIf.nodes nestedIfEmission (fun _ => none) vals
+      = some (denoteG exSem nestedIf.nodes (fun _ => 0) nestedIf.main vals) :=
+  valid_sound_checked exSem nestedIf nestedIfEmission (by decide) (by decide) _ vals
+
+/-- An emission that puts `x + y` into the *else* branch of the inner If while the *then* branch
+    returns it is rejected, and indeed does not compute the program's value. -/
+def nestedIfBad : EGraph :=
+  .mk [0, 1, 2, 3]
+    [.mk 6 [.mk [] [.mk 5 [.mk [] [] [⟨4, 0⟩], .mk [] [.mk 4 []] [⟨3, 0⟩]]] [⟨5, 0⟩],
+            .mk [] [] [⟨3, 0⟩]],
+     .mk 7 []]
+    [⟨7, 0⟩]
+example : validG nestedIf.nodes nestedIfBad nestedIf.main [] = false := by decide
+example : evalG exSem nestedIf.nodes nestedIfBad (fun _ => none) [1, 1, 10, 5]
+    ≠ some (denoteG exSem nestedIf.nodes (fun _ => 0) nestedIf.main [1, 1, 10, 5]) := by decide
+
+/-- Three levels: main ▸ If(c).then ▸ Loop(n).body ▸ If(c).then; `k = x * x` is created first, in the
+    main program, and used only in the innermost body (closure through three scopes).
+    0 n, 1 x, 2 c, 3 k = x*x, 4 iter, 5 cond, 6 acc (loop formals), 7 acc + k, 8 (7) + iter,
+    9 If c then (8) else acc, 10 Loop(n, -, x) body (iter, cond, acc) ↦ (cond, 9), 11 If c then (10) else x. -/
+def deep : Program where
+  nodes := [
+    ⟨.op 2, [some ⟨2, 0⟩], [⟨[], [⟨10, 0⟩]⟩, ⟨[], [⟨1, 0⟩]⟩]⟩,                       -- 11
+    ⟨.op 3, [some ⟨0, 0⟩, none, some ⟨1, 0⟩], [⟨[4, 5, 6], [⟨5, 0⟩, ⟨9, 0⟩]⟩]⟩,      -- 10
+    ⟨.op 2, [some ⟨2, 0⟩], [⟨[], [⟨8, 0⟩]⟩, ⟨[], [⟨6, 0⟩]⟩]⟩,                        -- 9
+    ⟨.op 0, [some ⟨7, 0⟩, some ⟨4, 0⟩], []⟩,                                          -- 8
+    ⟨.op 0, [some ⟨6, 0⟩, some ⟨3, 0⟩], []⟩,                                          -- 7
+    ⟨.arg, [], []⟩, ⟨.arg, [], []⟩, ⟨.arg, [], []⟩,                                   -- 6 5 4
+    ⟨.op 1, [some ⟨1, 0⟩, some ⟨1, 0⟩], []⟩,                                          -- 3
+    ⟨.arg, [], []⟩, ⟨.arg, [], []⟩, ⟨.arg, [], []⟩]                                   -- 2 1 0
+  main := ⟨[0, 1, 2], [⟨11, 0⟩]⟩
+
+/-- The emission of the real builder: `k` is emitted in the innermost body (its only user). -/
+def deepEmission : EGraph :=
+  .mk [0, 1, 2]
+    [.mk 11 [
+      .mk [] [.mk 10 [
+        .mk [4, 5, 6] [.mk 9 [
+          .mk [] [.mk 3 [], .mk 7 [], .mk 8 []] [⟨8, 0⟩],
+          .mk [] [] [⟨6, 0⟩]]] [⟨5, 0⟩, ⟨9, 0⟩]]] [⟨10, 0⟩],
+      .mk [] [] [⟨1, 0⟩]]]
+    [⟨11, 0⟩]
+
+/-- Another accepted emission of the same program: `k` hoisted to the main graph. -/
+def deepEmissionHoisted : EGraph :=
+  .mk [0, 1, 2]
+    [.mk 3 [],
+     .mk 11 [
+      .mk [] [.mk 10 [
+        .mk [4, 5, 6] [.mk 9 [
+          .mk [] [.mk 7 [], .mk 8 []] [⟨8, 0⟩],
+          .mk [] [] [⟨6, 0⟩]]] [⟨5, 0⟩, ⟨9, 0⟩]]] [⟨10, 0⟩],
+      .mk [] [] [⟨1, 0⟩]]]
+    [⟨11, 0⟩]
+
+example : wfCheck deep.nodes = true := by decide
+example : validG deep.nodes deepEmission deep.main [] = true := by decide
+example : validG deep.nodes deepEmissionHoisted deep.main [] = true := by decide
+-- n = 3, x = 5, c = 1:  acc: 5 → 30 → 56 → 83
+example : evalG exSem deep.nodes deepEmission (fun _ => none) [3, 5, 1] = some [83] := by decide
+example : denoteG exSem deep.nodes (fun _ => 0) deep.main [3, 5, 1] = [83] := by decide
+example : denoteG exSem deep.nodes (fun _ => 0) deep.main [3, 5, 0] = [5] := by decide
+example (vals : List Int) :
+    evalG exSem deep.nodes deepEmission (fun _ => none) vals
+      = evalG exSem deep.nodes deepEmissionHoisted (fun _ => none) vals :=
+  emission_irrelevant exSem deep.nodes (wfCheck_sound _ (by decide)) _ _ deep.main
+    (by decide) (by decide) vals
+
+/-- A loop formal used outside its body (leak): rejected — `6` is not visible in main. -/
+example : validG deep.nodes
+    (.mk [0, 1, 2] [.mk 7 []] [⟨7, 0⟩]) ⟨[0, 1, 2], [⟨7, 0⟩]⟩ [] = false := by decide
+
+end C01
